@@ -5,6 +5,7 @@
      SetDeviceInformationInstances(lo, up, sys, iDev) SetDeviceInformation(unique, function, class, manufacturer, industry, iDev)
      Restart()                                       SetMode(mode, source) after initialisation
      SetSingleFrameMessages / ExtendSingleFrameMessages / SetFastPacketMessages / ExtendFastPacketMessages (any time)
+     ExtendTransmitMessages / ExtendReceiveMessages (any time)   SetHandleOnlyKnownMessages   SetProductInformation (both variants)
    Each is a composition of functions the node model already has (they are what the library's own handlers call), behind the guards
    the public entry points apply (IsValidDevice, "broadcast and device -1 means device 0").  A sending call made before the node is
    open reaches Open() through SendMsg (NodeDefs.send_gate leaves that to its callers): [open_first] stands at exactly the place where
@@ -12,7 +13,7 @@
    of NodeRxDefs by these calls without touching [rop], so every theorem about [rstep] / [rrun] stays as it is; Proofs/Api*.v lift the
    node-level theorems to [xrun].  Definitions only. *)
 From Coq Require Import ZArith List Bool.
-From N2kV Require Import Base.ListAux Model.CanId Model.Sched Model.PgnClass Model.NodeDefs Model.NodeRxDefs Model.GroupFnDefs Model.SetModeDefs Gen.GenTables Gen.GenConsts.
+From N2kV Require Import Base.ListAux Model.CanId Model.Sched Model.PgnClass Model.NodeDefs Model.NodeRxDefs Model.GroupFnDefs Model.SetModeDefs Model.ProdInfoDefs Gen.GenTables Gen.GenConsts.
 Import ListNotations.
 Local Open Scope Z_scope.
 
@@ -98,6 +99,26 @@ Definition set_pgn_list (r:rnode) (which:Z) (l:list Z) : rnode :=
   with_rn r {| n_w64 := n_w64 n; n_mode := n_mode n; n_open := n_open n; n_now := n_now n; n_pgn := c'; n_devs := n_devs n; n_q := n_q n; n_drv := n_drv n;
                n_addr_changed := n_addr_changed n |}.
 
+(* ExtendTransmitMessages(list, iDev) / ExtendReceiveMessages(list, iDev): the library keeps the pointer; the table of sequence counters
+   (d_cells) that an earlier fast-packet send allocated keeps its size *)
+Definition set_tx_list (r:rnode) (i:Z) (l:list Z) : rnode :=
+  if negb (valid_dev r i) then r else
+  let d := get_dev (rn r) i in
+  with_rn r (upd_dev (rn r) i {| d_src := d_src d; d_name := d_name d; d_claim_end := d_claim_end d; d_claim_timer := d_claim_timer d; d_tx := l; d_cells := d_cells d;
+                                 d_tp_msg := d_tp_msg d; d_next_dt_time := d_next_dt_time d; d_next_dt_seq := d_next_dt_seq d; d_has_pending := d_has_pending d |}).
+Definition set_rx_list (r:rnode) (i:Z) (l:list Z) : rnode :=
+  if negb (valid_dev r i) then r else
+  let x := get_devx r i in
+  with_devx r i {| x_pend_claim := x_pend_claim x; x_pend_prod := x_pend_prod x; x_pend_conf := x_pend_conf x; x_hb := x_hb x; x_hb_seq := x_hb_seq x; x_rx := l |}.
+Definition with_cfg (r:rnode) (c:rcfg) : rnode :=
+  {| rn := rn r; rx_dev := rx_dev r; r_slots := r_slots r; r_q := r_q r; r_cfg := c; r_open_sched := r_open_sched r; r_sync := r_sync r;
+     r_devinfo_changed := r_devinfo_changed r; r_oob := r_oob r; r_clk := r_clk r |}.
+(* SetHandleOnlyKnownMessages(b) *)
+Definition set_only_known (r:rnode) (b:bool) : rnode :=
+  let c := r_cfg r in
+  with_cfg r {| c_only_known := b; c_iso_handler := c_iso_handler c; c_prodinfo := c_prodinfo c; c_confinfo := c_confinfo c; c_hb_on := c_hb_on c;
+                c_inst1 := c_inst1 c; c_inst2 := c_inst2 c; c_manuf := c_manuf c; c_inst_changed := c_inst_changed c |}.
+
 Inductive api : Type :=
 | ASendClaim (dst idev delay:Z)
 | ASendProd (idev:Z)
@@ -110,7 +131,11 @@ Inductive api : Type :=
 | ASetDeviceInformation (idev uniq func cls manuf ind:Z)
 | ARestart
 | ASetMode (mode src:Z)
-| ASetPgnList (which:Z) (l:list Z).
+| ASetPgnList (which:Z) (l:list Z)
+| ASetTxList (idev:Z) (l:list Z)
+| ASetRxList (idev:Z) (l:list Z)
+| ASetOnlyKnown (b:bool)
+| ASetProductInformation (serial:list Z) (code:Z) (model sw ver:list Z) (load version cert:Z).
 
 Definition api_step (r:rnode) (a:api) : rnode * list event :=
   match a with
@@ -137,6 +162,11 @@ Definition api_step (r:rnode) (a:api) : rnode * list event :=
   | ARestart => start_claim_all (length (n_devs (rn r))) r 0
   | ASetMode mode src => (set_mode_api r mode src, [])
   | ASetPgnList which l => (set_pgn_list r which l, [])
+  | ASetTxList idev l => (set_tx_list r idev l, [])
+  | ASetRxList idev l => (set_rx_list r idev l, [])
+  | ASetOnlyKnown b => (set_only_known r b, [])
+  | ASetProductInformation serial code model sw ver load version cert =>
+    (with_cfg r (set_product_information (r_cfg r) serial code model sw ver load version cert), [])
   end.
 
 Inductive xop : Type :=
